@@ -6,8 +6,8 @@ MC_AttrTypes == [A |-> [Id |-> "unique_id", N |-> "integer", S |-> "string", F |
                  L |-> [A_Id |-> "unique_id", B_Id |-> "unique_id", W |-> "integer"],
                  P |-> [Id |-> "unique_id", N |-> "integer"],
                  M |-> [One_Id |-> "unique_id", Other_Id |-> "unique_id", W |-> "integer"]]
-MC_ParamTypes == [x |-> "integer", flag |-> "boolean", s |-> "string"]
-MC_RetTypes == ("fact" :> "integer" @@ "mix" :> "integer" @@ "A::cop" :> "integer" @@ "EE1::br" :> "integer" @@ "A.iop" :> "integer")
+MC_ParamTypes == [x |-> "integer", flag |-> "boolean", s |-> "string", cnt |-> "Count"]
+MC_RetTypes == ("fact" :> "integer" @@ "tally" :> "Count" @@ "mix" :> "integer" @@ "A::cop" :> "integer" @@ "EE1::br" :> "integer" @@ "A.iop" :> "integer")
 MC_ConstTypes == ("LIMIT" :> "integer" @@ "GREETING" :> "string" @@ "ENABLED" :> "boolean")
 MC_NavTarget == <<>>
 ====
